@@ -251,6 +251,71 @@ func c18Worker(maxLen int, thorough bool) int {
 			}
 		}
 	}
+	// class primitives on EVERY byte value: one byte of each value 0..255 at several positions (inside a full 32-byte block, in a
+	// 16-byte block, in the tail) of a run of non-members / members — a vectorised range test built from compares, folds and
+	// subtractions misclassifies specific VALUES (a case fold maps 0x10..0x19 onto the digits), not specific positions
+	{
+		chk := func(name string, h []byte, got, want int) {
+			n++
+			if got != want {
+				mism++
+				fmt.Fprintf(w, "MISMATCH %s byte-value data=%s got=%d want=%d\n", name, hexOf(h), got, want)
+			}
+		}
+		isDigitB := func(b byte) bool { return b >= '0' && b <= '9' }
+		for _, ln := range []int{20, 40, 70, 100} {
+			for _, pos := range []int{0, 7, 17, 35, 66, ln - 1} {
+				if pos >= ln {
+					continue
+				}
+				for v := 0; v < 256; v++ {
+					for _, atEnd := range []bool{true, false} {
+						d := bytes.Repeat([]byte{' '}, ln) // no member of any class
+						d[pos] = byte(v)
+						h := g.place(d, atEnd)
+						chk("MemchrWord", h, simd.MemchrWord(h), naiveIdx(h, isWordB))
+						chk("MemchrDigit", h, simd.MemchrDigit(h), naiveIdx(h, isDigitB))
+						chk("MemchrInTable", h, simd.MemchrInTable(h, &table), naiveIdx(h, func(b byte) bool { return table[b] }))
+						d2 := bytes.Repeat([]byte{'a'}, ln) // a member of the word class and of the table
+						d2[pos] = byte(v)
+						h2 := g.place(d2, atEnd)
+						chk("MemchrNotWord", h2, simd.MemchrNotWord(h2), naiveIdx(h2, func(b byte) bool { return !isWordB(b) }))
+						chk("MemchrNotInTable", h2, simd.MemchrNotInTable(h2, &table), naiveIdx(h2, func(b byte) bool { return !table[b] }))
+						chk("FirstNonASCII", h2, simd.FirstNonASCII(h2), naiveIdx(h2, func(b byte) bool { return b >= 0x80 }))
+					}
+				}
+			}
+		}
+	}
+	// substring search with PERIODIC content and long needles: a^k b in a^m b (k up to 70: beyond the 32-byte prefix the long-needle
+	// path compares separately), (ab)^k c in (ab)^m c, and a needle whose rare byte sits first / in the middle / last; after a
+	// rejected candidate the search must resume one byte further, not one block further
+	{
+		for k := 1; k <= 70; k += 1 + k/24 {
+			for m := k; m <= k+70; m += 1 + (m-k)/20 {
+				for _, unit := range []string{"a", "ab", "-"} {
+					needle := append(bytes.Repeat([]byte(unit), k), 'X')
+					hay := append(append([]byte("q"), bytes.Repeat([]byte(unit), m)...), "X tail"...)
+					for _, atEnd := range []bool{true, false} {
+						h := g.place(hay, atEnd)
+						n++
+						if got, want := simd.Memmem(h, needle), bytes.Index(h, needle); got != want {
+							mism++
+							fmt.Fprintf(w, "MISMATCH Memmem periodic needle=%s(%d)X hay=%s(%d)X got=%d want=%d\n", unit, k, unit, m, got, want)
+						}
+						needle2 := append([]byte{'X'}, bytes.Repeat([]byte(unit), k)...)
+						hay2 := append(append([]byte("X"), bytes.Repeat([]byte(unit), k/2)...), append([]byte{'X'}, bytes.Repeat([]byte(unit), m)...)...)
+						h2 := g.place(hay2, atEnd)
+						n++
+						if got, want := simd.Memmem(h2, needle2), bytes.Index(h2, needle2); got != want {
+							mism++
+							fmt.Fprintf(w, "MISMATCH Memmem periodic needle=X%s(%d) got=%d want=%d\n", unit, k, got, want)
+						}
+					}
+				}
+			}
+		}
+	}
 	fmt.Fprintf(w, "DONE %d %d\n", n, mism)
 	return 0
 }
